@@ -125,3 +125,19 @@ func init() {
 		mutant{"setmetadata-reads-before-lock", "pkg/engine/ops.go", "\tlock := e.getMetadataLockShard(internalID)\n\tlock.Lock()\n\tdefer lock.Unlock()\n\n\t// 2. Legge i metadati correnti (sotto protezione del node-level lock).\n\t// GetMetadataForNode self-locks: no outer e.DB.RLock() (P1-5, vedi\n\t// VReinforce).\n\tmeta := e.DB.GetMetadataForNode(indexName, internalID)\n", "\tmeta := e.DB.GetMetadataForNode(indexName, internalID)\n\tlock := e.getMetadataLockShard(internalID)\n\tlock.Lock()\n\tdefer lock.Unlock()\n", "GRD-rmw", "VSetMetadata:read"},
 	)
 }
+
+func init() {
+	addMutants("C09",
+		mutant{"overwrite-leaves-doc-counted", "pkg/core/core.go", "\t\t\t\t\tif _, had := stats.DocLengths[nodeID]; had {\n\t\t\t\t\t\tstats.TotalDocLength -= int64(stats.DocLengths[nodeID])\n\t\t\t\t\t\tdelete(stats.DocLengths, nodeID)\n\t\t\t\t\t\tstats.TotalDocs--", "\t\t\t\t\tif _, had := stats.DocLengths[nodeID]; had && false {\n\t\t\t\t\t\tstats.TotalDocLength -= int64(stats.DocLengths[nodeID])\n\t\t\t\t\t\tstats.TotalDocs--", "GRD-stats", "removeOldIndexEntries:postings-removal-removes-stats"},
+		mutant{"bm25-constant-changed", "pkg/core/core.go", "bm25b  = 0.75", "bm25b  = 0.5", "TBL-bm25", "bm25b"},
+		mutant{"alpha-unclamped", "pkg/engine/ops.go", "\t\tif alpha < 0 || alpha > 1 {\n\t\t\talpha = 0.5\n\t\t}\n", "", "GRD-fusion", "alpha-clamped"},
+		mutant{"text-candidates-cut-to-k", "pkg/engine/ops.go", "\t\t\t} else {\n\t\t\t\ttextResults = results\n\t\t\t}\n\t\t}()", "\t\t\t} else {\n\t\t\t\ttextResults = results\n\t\t\t}\n\t\t\tif k > 0 && len(textResults) > k {\n\t\t\t\ttextResults = textResults[:k]\n\t\t\t}\n\t\t}()", "GRD-order", "no-candidate-cut-before-fusion"},
+	)
+	addMutants("C15",
+		mutant{"pinned-string-form-dropped", "pkg/engine/ops.go", "\t\t\t\tswitch v := val.(type) {\n\t\t\t\tcase bool:\n\t\t\t\t\tisPinned = v\n\t\t\t\tcase string:\n\t\t\t\t\tisPinned = (v == \"true\")\n\t\t\t\t}\n\t\t\t}\n\n\t\t\tif isPinned {\n\t\t\t\tcontinue // Skip decay", "\t\t\t\tisPinned, _ = val.(bool)\n\t\t\t}\n\n\t\t\tif isPinned {\n\t\t\t\tcontinue // Skip decay", "SIB-3", "searchWithFusion:pin-forms"},
+		mutant{"scored-search-ignores-last-access", "pkg/engine/ops.go", "\t\t\t\tif val, ok := meta[\"_last_accessed\"]; ok {\n\t\t\t\t\tif lastAccess := toFloat64(val); lastAccess > created {\n\t\t\t\t\t\tcreated = lastAccess\n\t\t\t\t\t}\n\t\t\t\t}\n", "", "SIB-3", "VSearchWithScores:keys"},
+		mutant{"unknown-model-is-step", "pkg/engine/search_utils.go", "\tdefault:\n\t\treturn calculateExponentialDecay(age, halfLifeSeconds)", "\tdefault:\n\t\treturn calculateStepDecay(age, halfLifeSeconds)", "TBL-models", "default:exponential"},
+		mutant{"future-timestamp-decays", "pkg/engine/search_utils.go", "\tage := now - createdAt\n\tif age <= 0 {\n\t\treturn 1.0\n\t}\n\n\tswitch model {", "\tage := now - createdAt\n\n\tswitch model {", "TBL-models", "unit:age<=0"},
+		mutant{"reinforce-adds-two", "pkg/engine/ops.go", "newCount := count + 1", "newCount := count + 2", "GRD-reinforce", "count+1"},
+	)
+}
